@@ -189,8 +189,15 @@ def _linear_result(ctx, res, n):
     if r["viols"]:
         r["violated"], r["prefix"] = r["viols"][0]["inv"], r["viols"][0]["at"]
     elif m.group(2).replace(" ", "") != "<<>>":
-        r["viols"] = [{"inv": "unparsed", "at": 0, "info": m.group(2)[:300]}]
-        r["violated"] = "unparsed"
+        # (records whose info holds bytes that break the record pattern: take the names and positions alone)
+        names = re.findall(r'inv \|-> "([^"]+)"', m.group(2))
+        ats = re.findall(r'at \|-> (\d+)', m.group(2))
+        if names:
+            r["viols"] = [{"inv": nm, "at": int(ats[i]) if i < len(ats) else 0, "info": " ".join(m.group(2).split())[:300]} for i, nm in enumerate(names)]
+            r["violated"], r["prefix"] = r["viols"][0]["inv"], r["viols"][0]["at"]
+        else:
+            r["viols"] = [{"inv": "unparsed", "at": 0, "info": m.group(2)[:300]}]
+            r["violated"] = "unparsed"
     else:
         r["accepted"] = True
         ctx.traces += 1
